@@ -135,7 +135,34 @@ def observe(files):
     return {"totals": obs_totals, "tree": obs_tree}, out
 
 
+def large_history(n, layout):
+    """a codebase of n+ folders in directory-walk order, so that a folder is asked for again after many other folders"""
+    v = lambda i: VARIANTS[i % len(VARIANTS)]
+    hist = [("pkg/core.py", v(2))]
+    if layout == "walk":
+        hist += [(f"pkg/gen/m{i:03d}/x.py", v(i)) for i in range(n)]
+        hist += [("pkg/util/x.py", v(1)), ("pkg/late.py", v(3)), ("pkg/gen/m000/y.js", v(2)), ("top.py", v(1))]
+    else:  # two distant folders alternate while many others are created in between
+        for i in range(n):
+            hist.append((f"a/b{i:03d}/c/x.py", v(i)))
+            if i % 40 == 39:
+                hist.append((f"a/b000/c/y{i}.py", v(i + 1)))
+                hist.append((f"z/late{i}.js", v(i + 2)))
+    return hist
+
+
 def _block(block, agg):
+    if isinstance(block, tuple) and block and block[0] == "large":
+        _, n, layout = block
+        hist = large_history(n, layout)
+        obs, viol = observe(hist)
+        case = {"large": [n, layout]}
+        agg.case(case, True, f"{len(obs['tree'])} folders/{len(obs['totals'])} languages", sample=False)
+        agg.transitions += len(hist)
+        agg.states.add(core.digest(["large", n, layout]))
+        for k, sig, d in viol:
+            agg.violation(k, dict(sig, family="many-folders"), case, d[:600])
+        return
     combos = block
     for paths, variants in combos:
         fileset = list(zip(paths, [VARIANTS[v] for v in variants]))
@@ -158,6 +185,9 @@ def _block(block, agg):
 
 
 def replay(case):
+    if "large" in case:
+        _, viol = observe(large_history(*case["large"]))
+        return [{"kind": k, "sig": dict(s, family="many-folders"), "detail": d[:600]} for k, s, d in viol]
     _, viol = observe([(p, ls) for p, ls in case["history"]])
     out = [{"kind": k, "sig": s, "detail": d} for k, s, d in viol]
     if "other" in case:
@@ -183,4 +213,8 @@ def run(ctx: core.Ctx):
             for variants in itertools.product(vr, repeat=n):
                 combos.append((paths, variants))
     step = max(1, len(combos) // (ctx.workers * 4) + 1)
-    ctx.run_blocks(_block, [combos[i:i + step] for i in range(0, len(combos), step)])
+    blocks = [combos[i:i + step] for i in range(0, len(combos), step)]
+    sizes = ctx.pick([130, 300], [65, 130, 257, 300, 1100])
+    ctx.bounds["many_folders"] = {"folders": sizes, "layouts": ["walk", "alternating"]}
+    blocks += [("large", n, layout) for n in sizes for layout in ("walk", "alternating")]
+    ctx.run_blocks(_block, blocks)
